@@ -265,8 +265,8 @@ class Rewriter(ast.NodeTransformer):
         gens = node.generators
         if any(g.is_async for g in gens):
             raise OutOfSubset('async comprehension')
-        # innermost first
-        body = elt if kind != 'dict' else ast.Tuple(elts=[node.key, node.value], ctx=ast.Load())
+        # innermost first (node.elt / key / value are the *rewritten* sub-expressions after generic_visit)
+        body = node.elt if kind != 'dict' else ast.Tuple(elts=[node.key, node.value], ctx=ast.Load())
         expr = None
         for gi in range(len(gens) - 1, -1, -1):
             g = gens[gi]
